@@ -7,7 +7,7 @@ from props.c12_ops import FMT, BITS, bits_to_float, float_to_bits, fields
 def c2_cases(rng, quick):
     """(v, w): exhaustive for small widths over a range wider than the width, boundary + random for large widths"""
     out = []
-    for w in range(1, 7 if quick else 10):
+    for w in range(1, 7 if quick else 12):
         for v in range(-(1 << (w + 1)) - 1, (1 << (w + 1)) + 2):
             out.append((v, w))
     for w in (7, 8, 15, 16, 31, 32, 33, 63, 64, 65, 127, 128, 200):
@@ -84,11 +84,11 @@ def patterns(fmt, rng, quick):
     full = mant_boundary(mw)
     out = []
     for e in range(emax + 1):
-        ms = full if (e in edge or not quick or fmt == 'sp') else mant_small(mw, rng)
+        ms = full if (e in edge or not quick or fmt == 'sp' or e % 8 == 5) else mant_small(mw, rng)
         for m in ms:
             for s in (0, 1):
                 out.append((s << (ew + mw)) | (e << mw) | m)
-    for _ in range(10000 if quick else 300000):
+    for _ in range(10000 if quick else 1000000):
         out.append(rng.getrandbits(1 + ew + mw))
     return out
 
@@ -133,7 +133,7 @@ def encode_floats(fmt, rng, quick):
     xs += [1.5 * 2.0 ** 128, -1.25 * 2.0 ** 128, nextafter(2.0 ** 129, 0.0), 2.0 ** 129, 1.0000001 * 2.0 ** 128,
            2.0 ** -150, nextafter(2.0 ** -150, 1.0), nextafter(2.0 ** -150, 0.0), 2.0 ** -151, 1.5 * 2.0 ** -149, 2.0 ** -149, 3.0 * 2.0 ** -150,
            2.0 ** 128, nextafter(2.0 ** 128, 0.0), 2.0 ** 127 * (2 - 2.0 ** -24), nextafter(2.0 ** 127 * (2 - 2.0 ** -24), 0.0), 2.0 ** 200, 1e39, -1e39]
-    for _ in range(2000 if quick else 100000):
+    for _ in range(2000 if quick else 400000):
         xs.append(rng.uniform(-1, 1) * 10.0 ** rng.randint(-46, 39))
     return xs
 
